@@ -55,7 +55,15 @@ func (s *session) Serve() {
 		close(writeDone)
 	}()
 
-	s.loopRead()
+	if eof := s.loopRead(); eof {
+		// The peer may have shut down its sending side only (e.g. a pipeline
+		// piped into nc) and still be reading, the requests which have been
+		// read are answered before the connection is closed. The writer
+		// returns once it has written the last response, or when the write
+		// fails since the peer has gone.
+		close(s.processingReqs)
+		<-writeDone
+	}
 	s.conn.Close()
 	s.doQuit()
 	<-writeDone
@@ -74,14 +82,16 @@ func (s *session) doQuit() {
 	})
 }
 
-func (s *session) loopRead() {
+// loopRead reads the requests until the connection or the session is closed.
+// It returns true if the peer has finished sending cleanly.
+func (s *session) loopRead() (eof bool) {
 	for {
 		v, err := s.dec.Decode()
 		if err != nil {
 			if err != io.EOF {
 				s.p.logger.Warnf("loop read exit: %v", err)
 			}
-			return
+			return err == io.EOF
 		}
 
 		req := newRawRequest(v)
@@ -91,7 +101,7 @@ func (s *session) loopRead() {
 		select {
 		case s.processingReqs <- req:
 		case <-s.quit:
-			return
+			return false
 		}
 	}
 }
@@ -102,10 +112,19 @@ func (s *session) loopWrite() {
 		err error
 	)
 	for {
+		var ok bool
 		select {
 		case <-s.quit:
 			return
-		case req = <-s.processingReqs:
+		case req, ok = <-s.processingReqs:
+		}
+		if !ok {
+			// the peer has finished sending and all the requests have been
+			// answered.
+			if err = s.enc.Flush(); err != nil {
+				goto FAIL
+			}
+			return
 		}
 
 		vhook.At("redis.session.write.before_wait")
